@@ -490,13 +490,15 @@ class Array:
             try:
                 for array in arrayiterable:
                     lenincrease += self._append(array=array, fd=fd)
-            except Exception as exception:
+            except BaseException as exception:  # also KeyboardInterrupt etc.
                 if fd.closed:
                     fd = open(file=self._datapath, mode=self._accessmode)
                 fd.flush()
                 self._update_len(lenincrease=lenincrease)
                 fd.truncate(self._size * self._dtype.itemsize)
                 fd.close()
+                if not isinstance(exception, Exception):
+                    raise  # array is consistent again, now let it through
                 s = f"{exception}\nAppending of data did not (completely) " \
                     f"succeed. Shape of array was {oldshape} and is now " \
                     f"{self._shape} after an increase in length " \
